@@ -298,7 +298,15 @@ enum CliCommands {
     },
 }
 
+#[cfg(wilfred_garden_verif)]
+#[path = "/verif/sim/src/mod.rs"]
+mod verif_sim;
+
 fn main() {
+    #[cfg(wilfred_garden_verif)]
+    if let Some(code) = verif_sim::entry() {
+        std::process::exit(code);
+    }
     let interrupted = Arc::new(AtomicBool::new(false));
 
     let i = Arc::clone(&interrupted);
